@@ -51,6 +51,26 @@ Theorem C03_patch_calls_get_their_return_edges :
     In (mk_edge' (NB b) ft ET_RETURN) pc'.
 Proof. exact patch_calls_get_their_return_edges. Qed.
 
+(* "No edge starts or ends at a block that left the module": whatever the CFG looks like, join_blocks leaves no edge at block2 (its
+   edges were discarded or moved to block1, keeping their labels) ... *)
+Theorem C03_join_leaves_no_edge_at_block2 :
+  forall s b1 b2 zero1, b1 <> b2 ->
+  forall x, In x (cfg (join_cfg s b1 b2 true zero1)) ->
+    nid (src x) <> b2 /\ nid (tgt x) <> b2 /\
+    (In x (cfg s) \/ exists e, In e (cfg s) /\ (nid (src e) = b2 \/ nid (tgt e) = b2) /\
+                               label x = label e /\ (src x = src e \/ src x = NB b1) /\ (tgt x = tgt e \/ tgt x = NB b1)).
+Proof. exact join_cfg_leaves_no_edge_at_block2. Qed.
+
+(* ... and so does remove_block when it takes a code block out of the module (for a block that does not both call and return, which
+   no block with one terminator does; the block behind it is another block) *)
+Theorem C03_remove_block_leaves_no_edge :
+  forall s b tp s',
+    remove_block s b tp = Ok (true, s') -> is_code s b = true -> (b < next s)%nat ->
+    snd (adjacent_blocks s b) <> Some b ->
+    ((exists e, In e (out_edges s b) /\ is_call e = true) -> ~ has_ret s b) ->
+    forall x, In x (cfg s') -> nid (src x) <> b /\ nid (tgt x) <> b.
+Proof. exact remove_block_leaves_no_edge. Qed.
+
 (* non-vacuity: [nop nop | jmp X] split at 1 -- the branch moves to the tail, the head falls through *)
 Definition ex_state : st :=
   mk_st [(0%nat, mk_blk KCode (Some 100%nat) 0 3); (1%nat, mk_blk KCode (Some 101%nat) 0 1)]
